@@ -4,6 +4,7 @@
 #include <stdlib.h>
 #include <string.h>
 #include <stdint.h>
+#include <stdarg.h>
 #include "rebound.h"
 #include "tree.h"
 #define EXP __attribute__((visibility("default")))
@@ -59,3 +60,98 @@ static int free_ap_calls = 0;
 static uint32_t free_ap_last_hash = 0;
 EXP void verif_free_ap(struct reb_particle* p){ free_ap_calls++; free_ap_last_hash = p->hash; }
 EXP int verif_free_ap_take(uint32_t* last_hash){ int n = free_ap_calls; *last_hash = free_ap_last_hash; free_ap_calls = 0; return n; }
+
+/* ------------------------------------------------------------------------------------------
+ * Read-only tree walker (C15, C05): canonical dump and invariant check.
+ * ---------------------------------------------------------------------------------------- */
+#include <math.h>
+struct tw { const struct reb_simulation* r; int* seen; int n; char* msg; int msgcap; int bad; uint64_t h; int leaves; int cells; int check_mass; };
+static void tw_fail(struct tw* w, const char* fmt, ...){
+    w->bad++;
+    if (w->msg && w->msg[0] == 0){
+        va_list ap; va_start(ap, fmt); vsnprintf(w->msg, w->msgcap, fmt, ap); va_end(ap);
+    }
+}
+static inline void tw_mix(struct tw* w, uint64_t v){ w->h ^= v + 0x9E3779B97F4A7C15ULL + (w->h << 6) + (w->h >> 2); }
+static inline uint64_t dbits(double d){ uint64_t u; memcpy(&u, &d, 8); return u; }
+/* returns number of leaves below node */
+static int tw_walk(struct tw* w, const struct reb_treecell* node, const struct reb_treecell* parent, int o, int depth){
+    const struct reb_simulation* r = w->r;
+    w->cells++;
+    tw_mix(w, (uint64_t)depth * 8 + o); tw_mix(w, dbits(node->x)); tw_mix(w, dbits(node->y)); tw_mix(w, dbits(node->z)); tw_mix(w, dbits(node->w));
+    if (parent){
+        double ew = parent->w / 2.;
+        double ex = parent->x + ew / 2. * ((o >> 0) % 2 == 0 ? 1. : -1);
+        double ey = parent->y + ew / 2. * ((o >> 1) % 2 == 0 ? 1. : -1);
+        double ez = parent->z + ew / 2. * ((o >> 2) % 2 == 0 ? 1. : -1);
+        if (node->w != ew || node->x != ex || node->y != ey || node->z != ez) tw_fail(w, "cell geometry does not match its octant (depth %d oct %d)", depth, o);
+    }
+    if (node->pt >= 0){
+        w->leaves++;
+        tw_mix(w, (uint64_t)node->pt + 1000003);
+        if (node->pt >= (int)r->N){ tw_fail(w, "leaf refers to particle %d >= N=%u", node->pt, r->N); return 1; }
+        if (w->seen[node->pt]++) tw_fail(w, "particle %d sits in more than one leaf", node->pt);
+        const struct reb_particle* p = &r->particles[node->pt];
+        if (p->c != node) tw_fail(w, "particle %d back-pointer does not point to its leaf", node->pt);
+        if (!isnan(p->y) && (fabs(p->x - node->x) > node->w / 2. || fabs(p->y - node->y) > node->w / 2. || fabs(p->z - node->z) > node->w / 2.))
+            tw_fail(w, "leaf cell (w=%g at %g %g %g) does not contain particle %d (%g %g %g)", node->w, node->x, node->y, node->z, node->pt, p->x, p->y, p->z);
+        for (int i = 0; i < 8; i++) if (node->oct[i]) tw_fail(w, "leaf has children");
+        if (w->check_mass){
+            if (node->m != p->m || node->mx != p->x || node->my != p->y || node->mz != p->z) tw_fail(w, "leaf mass/com differs from its particle %d", node->pt);
+        }
+        return 1;
+    }
+    int below = 0, nchild = 0;
+    double m = 0, mx = 0, my = 0, mz = 0;
+    for (int i = 0; i < 8; i++){
+        const struct reb_treecell* d = node->oct[i];
+        if (!d) continue;
+        nchild++;
+        below += tw_walk(w, d, node, i, depth + 1);
+        m += d->m; mx += d->mx * d->m; my += d->my * d->m; mz += d->mz * d->m;
+    }
+    if (nchild == 0) tw_fail(w, "empty inner node at depth %d", depth);
+    if (node->pt != -below) tw_fail(w, "inner node counter %d but %d leaves below (depth %d)", node->pt, below, depth);
+    if (below < 2 && nchild) tw_fail(w, "inner node with a single leaf below was not derefined (depth %d)", depth);
+    if (w->check_mass && nchild){
+        double tol = 1e-12;
+        if (fabs(node->m - m) > tol * fabs(m) + 1e-300) tw_fail(w, "cell mass %g != sum over children %g", node->m, m);
+        if (m > 0){
+            mx /= m; my /= m; mz /= m;
+            double s = node->w;
+            if (fabs(node->mx - mx) > 1e-9 * s || fabs(node->my - my) > 1e-9 * s || fabs(node->mz - mz) > 1e-9 * s) tw_fail(w, "cell centre of mass differs from children (depth %d)", depth);
+        }
+    }
+    return below;
+}
+/* returns number of problems (first message in msg); out[0]=leaves out[1]=cells out[2..3]=shape hash */
+EXP int verif_tree_check(struct reb_simulation* r, int check_mass, char* msg, int msgcap, uint64_t* out){
+    struct tw w; memset(&w, 0, sizeof(w));
+    w.r = r; w.msg = msg; w.msgcap = msgcap; w.check_mass = check_mass;
+    if (msg && msgcap) msg[0] = 0;
+    out[0] = out[1] = out[2] = 0;
+    if (!r->tree_root){ return 0; }
+    w.seen = calloc(r->N + 1, sizeof(int));
+    for (int i = 0; i < r->N_root; i++){
+        const struct reb_treecell* root = r->tree_root[i];
+        tw_mix(&w, (uint64_t)i + 77);
+        if (!root) continue;
+        if (root->w != r->root_size) tw_fail(&w, "root cell width %g != root_size %g", root->w, r->root_size);
+        tw_walk(&w, root, NULL, 0, 0);
+    }
+    for (unsigned int i = 0; i < r->N; i++){
+        if (w.seen[i] == 0 && !isnan(r->particles[i].y)) tw_fail(&w, "particle %u (of %u) is in no leaf", i, r->N);
+    }
+    free(w.seen);
+    out[0] = w.leaves; out[1] = w.cells; out[2] = w.h;
+    return w.bad;
+}
+
+/* counterfactual probe for the "integrate() clobbers dt_last_done on entry" finding: the next time the
+ * recording heartbeat is called for boundary 0 (i.e. right after reb_simulation_integrate reset the
+ * field and before the first step) put the persisted value back. */
+static double hb_dld_value = 0; static int hb_dld_armed = 0;
+EXP void verif_hb_restore_dt_last_done(double v){ hb_dld_value = v; hb_dld_armed = 1; }
+EXP void verif_heartbeat_dld(struct reb_simulation* r){
+    if (hb_dld_armed){ r->dt_last_done = hb_dld_value; hb_dld_armed = 0; }
+}
